@@ -31,6 +31,16 @@ CUSTOM = {
 }
 
 
+# what a member function called without its trailing arguments means (stated here, not read from the headers): boundary
+# derivatives of the trajectory generators that are left out are zero; a simple regression starts as the identity line
+# (slope 1, intercept 0); a linear regression starts with bias 0
+DEFAULTS = {
+    ("trajtrap", "gen"): ["0", "0"], ("trajbell", "gen"): ["0", "0"], ("trajpoly3", "gen"): ["0", "0"],
+    ("trajpoly5", "gen"): ["0", "0", "0", "0"], ("trajpoly7", "gen"): ["0", "0", "0", "0", "0", "0"],
+    ("regress_simple", "init"): ["1", "0"], ("regress_linear", "init"): ["0"],
+}
+
+
 def split_top(s):
     out, depth, cur = [], 0, ""
     for ch in s:
@@ -96,7 +106,9 @@ def parse_header(path):
             b0 = body.find("{", p1)
             b1 = match_close(body, b0, "{", "}")
             params = []
+            ndefault = 0
             for prm in split_top(body[p0 + 1:p1]):
+                ndefault += 1 if "=" in prm else 0
                 prm = prm.split("=")[0].strip()
                 if not prm or prm == "void":
                     continue
@@ -106,7 +118,7 @@ def parse_header(path):
             mbody = body[b0 + 1:b1]
             cm = re.search(r"\b(a_\w+)\s*\(\s*this\b", mbody)
             methods.append({"name": mname, "ret": " ".join(ret.split()), "params": params, "callee": cm.group(1) if cm else None,
-                            "const": "const" in body[p1:b0]})
+                            "const": "const" in body[p1:b0], "ndefault": ndefault})
             pos = b1
         res[name] = methods
     return res
@@ -258,6 +270,29 @@ template <class T> static void snapshot(char const *side, T const &x, void const
                 L.append('    snapshot("%s", X, %s, %s);%s' % (side, retexpr[0], retexpr[1], ' putchar(\',\');' if side == "c" else ""))
             L.append('    printf("}\\n");\n}')
             tests.append(fn)
+            # the same member called without its defaulted trailing arguments = the C function with the stated defaults
+            nd = m.get("ndefault", 0)
+            if nd and m["callee"] and (s, m["name"]) not in CUSTOM:
+                dv = DEFAULTS.get((s, m["name"]))
+                if dv is None or len(dv) != nd:
+                    skipped.append((s, m["name"] + "/defaults", "default arguments without a stated meaning"))
+                    continue
+                keep = len(args) - nd
+                call_c = "%s(&X%s)" % (m["callee"], "".join(", " + a for a in args[:keep] + ["(a_real)%s" % v for v in dv]))
+                call_m = "X.%s(%s)" % (m["name"], ", ".join(margs[:keep]))
+                if nonvoid:
+                    cs = "R = %s;" % call_c; ms = "R = %s;" % call_m
+                else:
+                    cs = call_c + ";"; ms = call_m + ";"
+                fn = "test_%s_%d_dflt" % (s, mi)
+                L.append("static void %s(void)\n{\n    a_%s X, OTHER;\n    %s\n" % (fn, s, rdecl))
+                L.append('    printf("{\\"cls\\":\\"%s\\",\\"m\\":\\"%s/defaults\\",\\"callee\\":\\"%s\\",\\"nargs\\":%d,");' % (s, m["name"], callee, keep))
+                for side, stmt in (("c", cs), ("cpp", ms)):
+                    L.append("    setup_%s(OTHER); setup_%s(X); %s" % (s, s, ("memset(&R, 0, sizeof(R));" if rdecl else "")))
+                    L.append("    %s" % stmt)
+                    L.append('    snapshot("%s", X, %s, %s);%s' % (side, retexpr[0], retexpr[1], ' putchar(\',\');' if side == "c" else ""))
+                L.append('    printf("}\\n");\n}')
+                tests.append(fn)
     L.append("int main(void)\n{")
     for t in tests:
         L.append("    %s();" % t)
